@@ -1,5 +1,8 @@
 """C11 - losing the connection fails calls promptly instead of hanging them.
 
+(a') ClientHold.tla: the same with the reader's shutdown held between its decision and the transport's
+    Close (the harness blocks Close at its entry): calls started on the half-dead connection - with an
+    end-of-stream the write side still accepts them - must fail once the shutdown goes on.
 (a) Client.tla (bus/client.go over EndPoint.tla and a stream that can fail): TLC checks every interleaving
     of 2 concurrent calls (or 1 call + subscription + disconnect callback), a peer answering whole or in two
     pieces, possibly before the send has returned, and a Fail / peer close / local Close placed anywhere:
@@ -42,11 +45,14 @@ def run(ctx):
     thorough = ctx.tier == "thorough"
     ctx.design_check("Client", "MCClient_calls.cfg", workers=8, timeout=3000)
     ctx.design_check("Client", "MCClient_sub.cfg", workers=8, timeout=3000)
+    # the shutdown held between the reader's decision and the transport's Close (half-dead connection)
+    ctx.design_check("ClientHold", "MCClientHold_thorough.cfg" if thorough else "MCClientHold.cfg", workers=8, timeout=3400)
     replayed = 0
     races = 0
-    cfgs = ["GenClient_calls.cfg", "GenClient_sub.cfg"] + (["GenClient_thorough.cfg"] if thorough else [])
-    for cfg in cfgs:
-        g = ctx.tlc("GenClient", cfg, workers=1, count=False, timeout=3000)
+    cfgs = [("GenClient", "GenClient_calls.cfg"), ("GenClient", "GenClient_sub.cfg"), ("GenClientHold", "GenClientHold.cfg")] + \
+           ([("GenClient", "GenClient_thorough.cfg")] if thorough else [])
+    for module, cfg in cfgs:
+        g = ctx.tlc(module, cfg, workers=1, count=False, timeout=3000)
         if g.violated:
             raise Infra("GenClient %s: %s" % (cfg, g.violated))
         tests, multi = annotate(g.printed("T"))
